@@ -358,3 +358,7 @@ M("C04", "map-number-read-as-hex", PST, "                args[map_key] = ast.lit
 M("C04", "map-number-base-aware-int-neutral", PST, "                args[map_key] = ast.literal_eval(number1.value)\n", "                args[map_key] = int(number1.value, 0)\n", neutral=True)
 M("C06", "symbols-stored-unsigned-32", SYM, "            self.symbols[symbol] = value\n", "            self.symbols[symbol] = value & 0xFFFFFFFF\n", "C06.R6")
 M("C08", "symbols-stored-unsigned-32", SYM, "            self.symbols[symbol] = value\n", "            self.symbols[symbol] = value & 0xFFFFFFFF\n", "C08.R7")
+M("C11", "skip-slice-equal-to-last", "a816/writers.py", "            self.write_block_header(block_slice, block_address)\n            self.file.write(block_slice)\n", "            if block_slice != getattr(self, \"_last\", None):\n                self.write_block_header(block_slice, block_address)\n                self.file.write(block_slice)\n            self._last = block_slice\n", "C11.R2")
+M("C16", "block-expands-against-copied-macro-table", CG, "    return _code_gen(node.body, resolver, macro_definitions)\n", "    return _code_gen(node.body, resolver, dict(macro_definitions))\n", "C16.R3")
+M("C17", "backslash-escapes-any-character", SST, "        if c == \"\\\\\" and s.peek() == \"'\":\n            s.next()\n", "        if c == \"\\\\\":\n            s.next()\n", "C17.R4")
+M("C16", "lookahead-by-find-slice-checked-neutral", SST, "        saved_pos = s.pos\n\n        s.accept_run(\" \\t\")\n", "        saved_pos = s.pos\n        _eol = s.input.find(\"\\n\", s.pos)\n        _rest = s.input[s.pos :] if _eol == -1 else s.input[s.pos : _eol]\n\n        s.accept_run(\" \\t\")\n", neutral=True)
